@@ -7,6 +7,7 @@ import (
 	"go/constant"
 	"go/token"
 	"go/types"
+	"regexp"
 	"strconv"
 	"strings"
 
@@ -683,7 +684,7 @@ func (e *Engine) trCall(env *SpecEnv, n SCall) Val {
 		}
 		_, ub := e.boxFns(t)
 		return Val{T: "(" + ub + " " + x.T + ")", S: e.sortOf(t), GoT: t}
-	case "pathClean", "pathDir":
+	case "pathClean", "pathDir", "pathBase":
 		e.sc.declareFun(id.Name, []string{"String"}, "String")
 		return Val{T: "(" + id.Name + " " + arg(0).T + ")", S: "String", GoT: tString}
 	case "pathJoin":
@@ -1035,6 +1036,7 @@ func (e *Engine) trMethodCall(env *SpecEnv, s SSel, args []SExpr) Val {
 					vals[i].GoT = fsig.Params().At(i - 1).Type()
 				}
 			}
+			e.noBoundVars(env, full, vals)
 			e.dry++
 			res := e.inlineCall(dummy, env.st.clone(), fn, vals, nil, fsig.Results())
 			e.dry--
@@ -1083,6 +1085,7 @@ func (e *Engine) trGoCall(env *SpecEnv, full string, obj types.Object, args []SE
 						vals[i].GoT = sig.Params().At(i).Type()
 					}
 				}
+				e.noBoundVars(env, full, vals)
 				e.dry++
 				res := e.inlineCall(dummy, env.st.clone(), fn, vals, nil, sig.Results())
 				e.dry--
@@ -1095,4 +1098,16 @@ func (e *Engine) trGoCall(env *SpecEnv, full string, obj types.Object, args []SE
 	}
 	e.specFail(env, "function "+full+" cannot be used in specifications")
 	return Val{}
+}
+
+var boundVarRe = regexp.MustCompile(`\bq_[A-Za-z0-9_]+![0-9]+`)
+
+// noBoundVars: a repository function used in a specification is executed symbolically, which emits named definitions
+// at the top level of the script; its arguments therefore must not mention a quantified variable.
+func (e *Engine) noBoundVars(env *SpecEnv, fn string, vals []Val) {
+	for _, v := range vals {
+		if boundVarRe.MatchString(v.T) {
+			e.specFail(env, "repository function "+fn+" applied to a quantified variable: give it a contract with a pure spec function and use that instead")
+		}
+	}
 }
